@@ -14,9 +14,9 @@ import itertools
 from typing import Any, Dict, List, Tuple
 
 from . import eqlshapes as S
-from .eqlshapes import Item, Other, an, the, entity, set_of, let, symbolic_mode
+from .eqlshapes import Item, Other, EqItem, an, the, entity, set_of, let, symbolic_mode
 
-CLASSES = {"Item": Item, "Other": Other}
+CLASSES = {"Item": Item, "Other": Other, "EqItem": EqItem}
 
 
 def make_pools(mk, spec) -> Dict[str, List[Any]]:
